@@ -2,8 +2,8 @@
    by the configured limit and fails gracefully).  Nothing but statements closed
    by [exact lemma] / vm_compute on translated tables, non-vacuity Examples, and
    [Print Assumptions]. *)
-From RJ Require Import Base.Outcome Model.TraceLen Proofs.TraceLen_proofs
-  Gen.TraceWords Gen.EvalCallGraph.
+From RJ Require Import Base.Outcome Model.DepthSem Proofs.DepthSem_proofs.
+From RJ Require Import Model.TraceLen Proofs.TraceLen_proofs Gen.TraceWords Gen.EvalCallGraph.
 From Coq Require Import Relations.
 Local Open Scope N_scope.
 
@@ -99,6 +99,63 @@ Proof.
   split; [eexists; split; vm_compute; reflexivity|]. split; reflexivity.
 Qed.
 
+(* ---- the depth semantics of the recursion-shaped core (Model/DepthSem.v) ---- *)
+
+(* raising the limit never changes the outcome of a program that succeeded *)
+Theorem C10_limit_monotone : forall p L L' fuel x,
+  top p L fuel = Ok x -> L <= L' -> top p L' fuel = Ok x.
+Proof. exact top_limit_monotone. Qed.
+
+(* ... nor any other outcome than a stack overflow (a value, an infinite
+   recursion, a type error), for every task of the evaluator *)
+Theorem C10_limit_monotone_outcome : forall P L L' fuel d st k,
+  L <= L' -> DepthSem.run P L fuel d st k <> Err DepthSem.StackOverflow ->
+  DepthSem.run P L' fuel d st k = DepthSem.run P L fuel d st k.
+Proof. exact limit_monotone_outcome. Qed.
+
+(* no frame is ever entered beyond the limit: the deepest frame entered (peak)
+   is at most L *)
+Theorem C10_depth_never_exceeds : forall P L fuel d st k r st',
+  DepthSem.run P L fuel d st k = Ok (r, st') -> peak st' <= N.max (peak st) L.
+Proof. exact depth_never_exceeds. Qed.
+
+Theorem C10_top_depth_never_exceeds : forall p L fuel s pk,
+  top p L fuel = Ok (s, pk) -> pk <= L.
+Proof. exact top_depth_never_exceeds. Qed.
+
+(* forcing a thunk whose evaluation is in progress never yields a value: it is
+   InfiniteRecursion, or StackOverflow when the frame of the force does not fit *)
+Theorem C10_force_in_progress : forall P L fuel d st framed i,
+  nthN (cells st) i = Some CInProgress ->
+  DepthSem.run P L (S fuel) d st (KForce framed i) =
+    if (framed && (L <? d + 1))%bool then Err DepthSem.StackOverflow else Err InfiniteRecursion.
+Proof. exact force_in_progress. Qed.
+
+(* a cycle of c = n+1 local thunks: InfiniteRecursion iff the limit leaves room
+   for the cycle and the repeated force (c + 1 <= L), StackOverflow otherwise *)
+Definition cycle_outcome_ok (n : nat) (L : N) : bool :=
+  match top (cycle_program n) L (2 * n + 8) with
+  | Err InfiniteRecursion => N.of_nat n + 2 <=? L
+  | Err DepthSem.StackOverflow => L <? N.of_nat n + 2
+  | _ => false
+  end.
+Definition C10_cycle_goal : Prop := forall n L, cycle_outcome_ok n L = true.
+Theorem C10_cycle_detected_partial :
+  forallb (fun n => forallb (fun l => cycle_outcome_ok n (N.of_nat l)) (seq 0 40)) (seq 0 32) = true.
+Proof. vm_compute. reflexivity. Qed.
+
+(* non-vacuity: direct recursion of depth 5 through calls (value 7 = "55") succeeds exactly from
+   its peak depth on, with the same value; the model's peak is what the limit
+   must reach *)
+Example C10_depthsem_nonvacuous :
+  let body := EIfZ EArg (ENum 0) (EAdd (ENum 1) (ECall 0 (EDec EArg))) in
+  let p := {| funs := [body]; locs := [EArr [ELoc 1]; ECall 0 (ENum 2)]; main := EAdd (ECall 0 (ENum 5)) (EIdx (ELoc 0) 0) |} in
+  top p 8 200 = Ok ([55]%N, 8) /\ top p 100 200 = Ok ([55]%N, 8) /\
+  top p 7 200 = Err DepthSem.StackOverflow /\
+  top (cycle_program 2) 4 50 = Err InfiniteRecursion /\
+  top (cycle_program 2) 3 50 = Err DepthSem.StackOverflow.
+Proof. vm_compute. repeat split. Qed.
+
 Print Assumptions C10_handler_words_balanced.
 Print Assumptions C10_handler_words_balanced_sound.
 Print Assumptions C10_handler_gain_bounded.
@@ -110,3 +167,11 @@ Print Assumptions C10_get_stack_trace_pop_ok.
 Print Assumptions C10_len_never_exceeds.
 Print Assumptions C10_overflow_trace_exceeds_limit.
 Print Assumptions C10_tracelen_nonvacuous.
+Print Assumptions C10_limit_monotone.
+Print Assumptions C10_limit_monotone_outcome.
+Print Assumptions C10_depth_never_exceeds.
+Print Assumptions C10_top_depth_never_exceeds.
+Print Assumptions C10_top_depth_never_exceeds.
+Print Assumptions C10_force_in_progress.
+Print Assumptions C10_cycle_detected_partial.
+Print Assumptions C10_depthsem_nonvacuous.
